@@ -126,6 +126,43 @@ def remaining_views(fn, ends, ptr_canon):
     return out
 
 
+def remaining_accessor(fb, g):
+    """g(ptr) is a 'bytes available behind ptr' accessor: every return is 0 or `end - ptr` with end = data() + size()
+    of the payload buffer (so result >= k > 0 implies that k bytes lie between ptr and the end)."""
+    if g is None or g.body is None or not g.params or g.params[0]["t"].get("k") != "ptr":
+        return False
+    ends = buffer_end_locals(g)
+    pd = g.params[0]["decl"]
+    rets = g.returns()
+    if not rets or not ends or any(d == pd for d, _, _ in facts.writes_of(g)):
+        return False
+    seen_diff = False
+    for r in rets:
+        e = strip_all_casts(r.get("e") or {})
+        if const_value(e) == 0:
+            continue
+        if e.get("k") == "bin" and e.get("op") == "-" and strip_all_casts(e["l"]).get("decl") in ends and strip_all_casts(e["r"]).get("decl") == pd:
+            seen_diff = True
+            continue
+        return False
+    return seen_diff
+
+
+def remaining_accessor_locals(fn, ptr_canon):
+    """single-definition locals initialised as <remaining accessor>(ptr) while ptr is not moved in fn"""
+    fb = getattr(fn, "fb", None)
+    out = set()
+    if fb is None or any(d == ptr_canon for d, k, _ in facts.writes_of(fn) if k != "addr"):
+        return out
+    for d, es in local_defs(fn).items():
+        if len(es) == 1:
+            c = strip_all_casts(es[0])
+            if c.get("k") == "call" and len(c.get("args", [])) == 1 and canon(strip_all_casts(c["args"][0])) == ptr_canon and \
+                    remaining_accessor(fb, fb.resolve_call(c)):
+                out.add(d)
+    return out
+
+
 def remaining_counters(fn, ends, ptr_canon, before_id=None):
     """Locals R kept equal to (end - ptr): initialised as `end - ptr` and decreased by k in the
     same block right after/before every `ptr += k` (no other writes to R or ptr)."""
@@ -171,6 +208,23 @@ def remaining_counters(fn, ends, ptr_canon, before_id=None):
 def remaining_fact(fs, ends, ptr_canon, need_const=None, need_canon=None, minus=0, fn=None, at_id=None):
     """A live fact `(end - ptr) [- minus] >= need` (also through a local kept equal to end - ptr)."""
     rc = remaining_counters(fn, ends, ptr_canon, at_id) if fn is not None else set()
+    ra = remaining_accessor_locals(fn, ptr_canon) if fn is not None else set()
+    for a in fs:
+        if a[0] == "cmp" and ra:
+            for x, y, op in ((a[4], a[5], a[2]), (a[5], a[4], facts._flip_op(a[2]))):
+                if op not in (">=", ">"):
+                    continue
+                xx = strip_all_casts(x)
+                m0 = 0
+                if xx.get("k") == "bin" and xx.get("op") == "-" and const_value(xx["r"]) is not None:
+                    m0 = const_value(xx["r"])
+                    xx = strip_all_casts(xx["l"])
+                if xx.get("k") == "ref" and xx.get("decl") in ra and m0 >= minus:
+                    yv = const_value(y)
+                    if need_const is not None and yv is not None and yv + (1 if op == ">" else 0) >= need_const and yv + (1 if op == ">" else 0) >= 1:
+                        return a
+                    if need_canon is not None and canon(strip_all_casts(y)) == need_canon:
+                        return a
     rv = remaining_views(fn, ends, ptr_canon) if fn is not None and minus == 0 else set()
     for a in fs:
         if a[0] == "cmp" and rv:
